@@ -100,6 +100,11 @@ def run_tlc(module, cfg, wd, workers=12, timeout=1800, consts=None, env_extra=No
         # derive a cfg with overridden constants
         text = open(cfg_path).read()
         for k, v in consts.items():
+            if v.startswith("<-"):
+                text, n = re.subn(rf"(?m)^(\s*(?:CONSTANTS?\s+)?{k}\s*<-\s*).*$", lambda m: m.group(1) + v[2:].strip(), text)
+                if n == 0:
+                    text += f"\nCONSTANT {k} <- {v[2:].strip()}\n"
+                continue
             text, n = re.subn(rf"(?m)^(\s*(?:CONSTANTS?\s+)?{k}\s*=\s*).*$", lambda m: m.group(1) + v, text)
             if n == 0:
                 text += f"\nCONSTANT {k} = {v}\n"
@@ -332,3 +337,77 @@ def validate_traces(ver, binp, family, trace_module, wd, stage="trace", jobs=12,
                               "distinct_inputs": summ.get("distinct_inputs", 0), "wall_s": round(time.time() - t0, 1)})
     shutil.rmtree(tdir, ignore_errors=True)
     return summ
+
+
+def validate_runs(ver, binp, family, trace_module, wd, stage="runs", jobs=12, gen_args=None, timeout=900):
+    """I->S for stateful objects: the harness records one file per run (header + events); each run must be a
+    behaviour of the specification (blocking form: the first unexplained event of a run is the mismatch) and
+    every invariant of the specification is evaluated in every state of the matched behaviour."""
+    t0 = time.time()
+    tdir = os.path.join(wd, stage)
+    summ = run_harness(binp, ["gen", family, ver.tier, str(ver.seed), tdir] + (gen_args or []))
+    files = sorted(os.path.join(tdir, f) for f in os.listdir(tdir) if f.endswith(".ndjson"))
+    if not files:
+        raise ToolError(f"{stage}: harness recorded no runs")
+
+    def one(path):
+        tag = "rv-" + os.path.basename(path).replace(".ndjson", "")
+        res = run_tlc(trace_module, trace_module + ".cfg", wd, workers=1, timeout=timeout, tag=tag, heap="3g",
+                      env_extra={"TRACE": path,
+                                 "JAVA_TOOL_OPTIONS": f"-Xss1g -Djava.io.tmpdir={os.path.join(WORK, 'tmp')} "
+                                                      "-Dtlc2.tool.queue.IStateQueue=StateDeque"})
+        mism = []
+        for payload in tlc_lines(res["out_path"], "MISMATCH"):
+            i = payload.index(",")
+            m = json.loads(parse_tla_string(payload[i + 1:].strip()))
+            mism.append({"fam": family, "name": "run", "run": os.path.basename(path), "unexplained": m,
+                         "obs": {"p": "unexplained:" + str(m.get("ev", {}).get("ev"))}})
+        text = open(res["out_path"], errors="replace").read()
+        inv = re.findall(r"Invariant (\w+) is violated", text)
+        for name in inv:
+            mism.append({"fam": family, "name": "run", "run": os.path.basename(path), "invariant": name,
+                         "header": json.loads(open(path).readline()), "obs": {"p": "invariant:" + name}})
+        if not res["ok"] and not inv:
+            raise ToolError(f"trace validation of {path} failed:\n" + "\n".join(l for l in text.splitlines() if not l.startswith("<<"))[-3000:])
+        if mism:
+            keep = os.path.join(REPLAYS, f"{ver.pid}-{os.path.basename(path)}")
+            os.makedirs(REPLAYS, exist_ok=True)
+            shutil.copy(path, keep)
+            for m in mism:
+                m["trace_file"] = keep
+        os.remove(res["out_path"])
+        return res["distinct"], mism
+    states, all_m = 0, []
+    with ThreadPoolExecutor(max_workers=jobs) as ex:
+        for n, m in ex.map(one, files):
+            states += n
+            all_m.extend(m)
+    for m in all_m:
+        ver.mismatch("I->S " + stage, m)
+    ver.cov["traces_validated_against_impl"] += len(files)
+    ver.cov["evaluations"] += summ["events"]
+    ver.cov["distinct_nontrivial"] += len(files)
+    ver.cov["samples"] += summ["samples"][:2]
+    ver.cov["stages"].append({"stage": "I->S " + stage, "runs_validated": len(files), "events": summ["events"],
+                              "trace_states": states, "mismatching_runs": len({m["run"] for m in all_m}),
+                              "wall_s": round(time.time() - t0, 1)})
+    shutil.rmtree(tdir, ignore_errors=True)
+    return summ
+
+
+def generic_replay(doc):
+    """Re-run the case of a replay file on the current tree and show specification vs observation."""
+    binp = cargo_build("vh")
+    item = doc["item"]
+    c = item.get("case", item)
+    if "in" in c:
+        r = subprocess.run([binp, "one", c["fam"], c["name"], json.dumps(c["in"])], capture_output=True, text=True)
+        print("observed now :", r.stdout.strip())
+        print("recorded obs :", json.dumps(item.get("obs", c.get("obs"))))
+        if "exp" in c:
+            print("specification:", json.dumps(c["exp"]))
+    else:
+        print(json.dumps(item, indent=1)[:4000])
+        if "trace_file" in item:
+            print("recorded trace:", item["trace_file"])
+    return 0
